@@ -85,6 +85,7 @@ class Mon:
     def attach(self):
         from pydrobert.speech import post as P
 
+        monitor.capture_init(P.Standardize)
         monitor.attach(P.Standardize, "accumulate", pre=self.pre_acc, post=self.post_acc)
         monitor.attach(P.Standardize, "apply", pre=self.pre_apply, post=self.post_apply)
 
@@ -158,7 +159,8 @@ class Mon:
             if getattr(sh, "applied_at", None) not in (None, sh.n):
                 self.rec.count("apply_after_further_accumulation")
             sh.applied_at = sh.n
-        norm_var = bool(inst._norm_var)
+        ca = monitor.ctor_args(inst)
+        norm_var = bool(ca["norm_var"]) if ca is not None else bool(inst._norm_var)
         info = dict(op="apply", shape=list(before.shape), dtype=str(before.dtype), axis=axis, in_place=bool(kw["in_place"]), norm_var=norm_var,
                     stats="none" if sh is None else "n=%d kinds=%s" % (sh.n, sorted(sh.kinds)))
         if before.size == 0 or before.ndim == 0:
@@ -170,7 +172,7 @@ class Mon:
             if not isinstance(c.exc, ValueError):
                 self.v("apply with %d coefficients on statistics for %d did not raise ValueError (got %r)" % (F, len(sh.cols), c.exc), check="dim_mismatch", **info)
             return
-        if sh is None and (inst._stats is not None):
+        if sh is None and ((ca is not None and ca.get("rfilename") is not None) or (ca is None and inst._stats is not None)):
             self.rec.count("apply_unknown_stats_origin")  # loaded from a file the monitor knows nothing about
             return
         if sh is None and before.ndim == 1:
